@@ -17,6 +17,7 @@
 #include <xalanc/PlatformSupport/XalanOutputStreamPrintWriter.hpp>
 #include <xalanc/PlatformSupport/AttributeListImpl.hpp>
 #include <xalanc/PlatformSupport/XSLException.hpp>
+#include <xalanc/PlatformSupport/PrefixResolver.hpp>
 #include <xalanc/Include/STLHelper.hpp>
 #include <xalanc/XMLSupport/XalanXMLSerializerFactory.hpp>
 #include <xalanc/XMLSupport/FormatterToHTML.hpp>
@@ -92,6 +93,23 @@ static std::vector<std::string> words(const std::string& line)
     return w;
 }
 
+// The prefix resolver the XSLT engine installs on FormatterToHTML answers from the result namespaces; at SAX level
+// the harness binds the prefixes "m" and "svg" (the generator's namespaced vocabulary) and nothing else.
+class FixedResolver : public PrefixResolver
+{
+public:
+    FixedResolver() : m_m("urn:m"), m_svg("urn:svg"), m_uri("") {}
+    virtual const XalanDOMString* getNamespaceForPrefix(const XalanDOMString& prefix) const
+    {
+        if (prefix.length() == 1 && prefix[0] == 'm') return &m_m;
+        if (prefix.length() == 3 && prefix[0] == 's' && prefix[1] == 'v' && prefix[2] == 'g') return &m_svg;
+        return 0;
+    }
+    virtual const XalanDOMString& getURI() const { return m_uri; }
+private:
+    XalanDOMString m_m, m_svg, m_uri;
+};
+
 static std::string doSax(const std::vector<std::string>& w)
 {
     if (w.size() < 13 || w[12] != "|") return "bad";
@@ -107,6 +125,7 @@ static std::string doSax(const std::vector<std::string>& w)
     MemoryManager& mm = XalanMemMgrs::getDefaultXercesMemMgr();
     std::ostringstream os;
     std::string result;
+    std::unique_ptr<FixedResolver> resolver;   // must outlive the listener, must not outlive Xalan
     try
     {
         XalanStdOutputStream stream(os, mm);
@@ -115,7 +134,11 @@ static std::string doSax(const std::vector<std::string>& w)
         if (method == "xml")
             fl = XalanXMLSerializerFactory::create(mm, pw, ver, doIndent, amount, enc, empty, dsys, dpub, xmlDecl, standalone);
         else if (method == "html")
+        {
+            resolver.reset(new FixedResolver);
             fl = FormatterToHTML::create(mm, pw, enc, empty, dsys, dpub, doIndent, amount, escURLs, omitMeta);
+            fl->setPrefixResolver(resolver.get());
+        }
         else if (method == "text")
             fl = FormatterToText::create(mm, pw, enc);
         else
